@@ -109,6 +109,26 @@ Theorem C06_query_changes_nothing : forall pcre ft w c h w' r,
 Proof. exact query_changes_nothing. Qed.
 Print Assumptions C06_query_changes_nothing.
 
+(* the constructors from a FILE* / a descriptor either hand back an object - and then exactly its
+   footprint was allocated - or return NULL, and then nothing is left allocated and nothing the
+   program holds has changed (whatever was allocated on the way - the block of the size of the file,
+   the object itself - has been released again) *)
+Theorem C06_stream_constructor : forall pcre ft w c v k content pos w' r,
+  step pcre ft w (NewFromStream c v k content pos) = Ok (w', r) ->
+  (exists b o, stream_text c v k content pos = Ok (Some b) /\ r = RNew (next w) false /\
+               held w' = held w ++ [(next w, o)] /\ abs o = abs (stream_obj c b) /\
+               ledger w' = ledger w + footprint o) \/
+  (stream_text c v k content pos = Ok None /\ r = RNew (next w) true /\ held w' = held w /\ ledger w' = ledger w).
+Proof. exact stream_new_spec. Qed.
+Print Assumptions C06_stream_constructor.
+
+(* in particular a seekable, non-empty file whose stream is already at its end is the NULL case of
+   the buffer constructors *)
+Theorem C06_stream_mbuff_at_eof : forall v content, content <> [] ->
+  stream_text SMbuff v KReg content (Z.of_nat (length content)) = Ok None.
+Proof. exact stream_mbuff_at_eof. Qed.
+Print Assumptions C06_stream_mbuff_at_eof.
+
 (* an operation changes only the handles it writes; everything else the program holds is untouched *)
 Theorem C06_others_untouched : forall pcre ft h w op w' r,
   step pcre ft w op = Ok (w', r) -> ~ In h (writes op) -> is_delall op = false ->
@@ -144,6 +164,26 @@ Definition ex_prog : list op :=
 Example ex_balance : exists w outs, run pc [(105, 1)] w0 ex_prog = Ok (w, outs) /\ held w = [] /\ ledger w = 0 /\
                                      List.existsb (fun e => 20 <=? snd e) outs = true.
 Proof. do 2 eexists. split; [vm_compute; reflexivity|]. repeat split. Qed.
+(* stream constructors: failing forms (stream at end of file, empty file, no stream) and succeeding
+   forms (from the start, from the middle, a pipe, a closed descriptor) in one program; the ledger is 0
+   after the failing ones and back at 0 after the deletions *)
+Definition ex_streams : list op :=
+  [NewFromStream SMbuff VFp KReg [97; 98; 99] 3; NewFromStream SMbuff VFd KReg [97; 98; 99] 3;
+   NewFromStream SMbuff VFp KReg [] 0; NewFromStream SStr VFd KBad [] 0; NewFromStream STok VFp KBad [] 0;
+   NewFromStream SMbuff VFd KReg [97; 98; 99] 1; NewFromStream SMbuff VFp KPipe [] 0; NewFromStream SMbuff VFd KClosed [] 0;
+   NewFromStream SStr VFp KReg [97; 10; 98] 0; NewFromStream SUstr VFd KPipe [97; 10; 98] 0; NewFromStream STok VFp KReg [97; 32; 98; 10] 0;
+   TokEval 10; Dup 5; DelAll].
+Example ex_stream_balance :
+  exists w outs, run pc [] w0 ex_streams = Ok (w, outs) /\ held w = [] /\ ledger w = 0 /\
+    firstn 5 (map snd outs) = [0; 0; 0; 0; 0] /\ nth 10 (map snd outs) 0 = 11.
+Proof. do 2 eexists. split; [vm_compute; reflexivity|]. repeat split. Qed.
+(* tokenizer and pair members installed / changed through setters and getters, then everything deleted *)
+Example ex_member_balance :
+  exists w outs, run pc [] w0 [NewTok (Some [97; 32; 98]); TokEval 0; TokListRemoveAt 0 1; NewCont IList LL; NewStr (Some [122]);
+                              TokListAppend 0 3; TokSetTokens 0 (Some 2%nat); TokSetChar 0 2 35; MemberAppend 0 0 [99]; NewStr None;
+                              NewPair (Some 4%nat) None; MemberAppend 5 0 [100]; NewMbuff (Some [1; 2; 3]); SetLen 6 1; SetLen 6 (-1); Dup 6; DelAll]
+                 = Ok (w, outs) /\ held w = [] /\ ledger w = 0.
+Proof. do 2 eexists. split; [vm_compute; reflexivity|]. split; reflexivity. Qed.
 Example ex_handed_back :
   exists w, step pc [] (mkWorld [(0%nat, OCont IList Arr 0 true [Some (OStr (Some [97])); None])] 1 1 4) (LRemoveAt 0 0)
             = Ok (w, RNew 1 false) /\ lookup 1 (held w) = Some (OStr (Some [97])) /\ ledger w = 4.
